@@ -166,11 +166,18 @@ class Check:
                          % (self.pid, e["what"], e["id"], cnt))
         seen = set()
         nviol = 0
-        for sig, what, replay, noinput in self.violations:
+        # a broken proof obligation / correspondence is reported on its own (no-failing-input-found) only when the
+        # search found no failing input; otherwise it is recorded inside the replay of the failing input found
+        real = [v for v in self.violations if not v[3]]
+        broken = [dict(signature=v[0], what=v[1], detail=v[2]) for v in self.violations if v[3]]
+        todo = self.violations if not real else real
+        for sig, what, replay, noinput in todo:
             if sig in seen:
                 continue
             seen.add(sig)
             nviol += 1
+            if real and broken and isinstance(replay, dict):
+                replay = dict(replay, broken_obligations_in_this_run=broken[:10])
             path = os.path.join(VERIF, "replays", "%s_%s_%d.json"
                                 % (self.pid, re.sub(r"\W+", "_", sig)[:60], self.seed))
             json.dump(dict(property=self.pid, signature=sig, what=what, seed=self.seed,
